@@ -15,6 +15,8 @@ pub enum Front {
     RawExtendIter,
     RawExtendStream,
     RawFromIter,
+    /// raw::Builder on a hostile sink (random short accepts and Interrupted), returns what the sink holds
+    RawShortSink,
     MapInsert,
     MapExtendIter,
     MapExtendStream,
@@ -25,7 +27,8 @@ pub enum Front {
     SetFromIter,
 }
 
-pub const MAP_FRONTS: [Front; 9] = [
+pub const MAP_FRONTS: [Front; 10] = [
+    Front::RawShortSink,
     Front::RawMemoryInsert,
     Front::RawNewVec,
     Front::RawExtendIter,
@@ -143,6 +146,15 @@ pub fn build(front: Front, kv: &Kv) -> Result<Vec<u8>, String> {
             let mut b = e(Builder::new(Vec::new()))?;
             e(b.extend_stream(VecStream::new(kv)))?;
             e(b.into_inner())
+        }
+        Front::RawShortSink => {
+            let sink = crate::sinks::Sink::new(crate::sinks::Policy::Random(kv.len() as u64 * 31 + kv.first().map(|e| e.1).unwrap_or(7)));
+            let mut b = e(Builder::new(sink.clone()))?;
+            for (k, v) in kv {
+                e(b.insert(k, *v))?;
+            }
+            e(b.finish())?;
+            Ok(sink.committed_data())
         }
         Front::RawFromIter => {
             let f = e(Fst::from_iter_map(kv.iter().map(|(k, v)| (k, *v))))?;
